@@ -194,6 +194,8 @@ func relOf(shape string, s func(string) string) string {
 		return "github.com/" + s("owner") + "/" + s("repo") + "@v1.2.3" + s("ver") + "/" + s("rest") + "/f.go"
 	case "github3verodd": // a version that does not start with 'v'
 		return "github.com/" + s("owner") + "/" + s("repo") + "@1.0" + s("ver") + "/" + s("rest") + "/f.go"
+	case "github3atfile": // no version on the repository element; an '@' in the file name
+		return "github.com/" + s("owner") + "/" + s("repo") + "/" + s("rest") + "/gen@" + s("at") + ".go"
 	case "otherhostatdir": // a directory whose name ends in '@'
 		return "example.com/" + s("p") + "@/svc/svc.go"
 	case "github3pseudo":
@@ -239,6 +241,18 @@ func buildHTMLSnapshot(b *htmlBranch, hostile bool, seed int64) (*stack.Snapshot
 		}
 		if b.Remote {
 			c.RemoteSrcPath = "/" + s(tag+"remote") + "/y.go"
+			if hostile {
+				// paths that are not rooted (binaries built with -trimpath, Windows, or just hostile text):
+				// whatever stands in front of the first ':' must not become the link's scheme
+				switch rng.Intn(4) {
+				case 1:
+					c.RemoteSrcPath = "javascript:alert(1)//" + noslash(s(tag+"remote")) + "/y.go"
+				case 2:
+					c.RemoteSrcPath = "c:/" + s(tag+"remote") + "/y.go"
+				case 3:
+					c.RemoteSrcPath = "vbscript:" + noslash(s(tag+"remote")) + "/sub/y.go"
+				}
+			}
 			if b.Rel == "nodir" {
 				c.RemoteSrcPath = noslash(s(tag+"remote")) + ".go"
 			}
